@@ -1,56 +1,47 @@
-//! scratch probes (not registered)
+//! scratch probes (not registered): cost of single operations
 use super::shape_common::*;
 use super::*;
 
-#[kani::proof]
-#[kani::unwind(8)]
-fn p1_wellformed_symd() {
-    let x: u8 = kani::any();
-    let d = any_depth();
-    let enc = [SOME, U8, x];
-    check_wellformed(&enc, 2, d);
+const VEC2: u8 = ValueKind::Vec2 as u8;
+
+macro_rules! probe {
+    ($name:ident, $unwind:expr, |$x:ident, $y:ident| $body:block) => {
+        #[kani::proof]
+        #[kani::unwind($unwind)]
+        fn $name() {
+            let $x: u8 = kani::any();
+            let $y: u8 = kani::any();
+            $body
+        }
+    };
 }
 
-#[kani::proof]
-#[kani::unwind(8)]
-fn p2_value_symd() {
-    let x: u8 = kani::any();
-    let d = any_depth();
-    let enc = [SOME, U8, x];
+probe!(q1_skip_vec2, 10, |x, y| { let e = [VEC2, SOME, U8, x, SOME, U8, y, NONE]; let (r, c) = run_skip(&e, 0); assert!(r.is_ok() && c == 8); });
+probe!(q2_value_vec2, 10, |x, y| { let e = [VEC2, SOME, U8, x, SOME, U8, y, NONE]; let (r, c) = run_value(&e, 0); assert!(r.is_ok() && c == 8); std::mem::forget(r); });
+probe!(q3_value_nested, 10, |x, y| { let e = [VEC2, SOME, VEC2, SOME, U8, x, NONE, NONE]; let (r, c) = run_value(&e, 0); assert!(r.is_ok() && c == 8); std::mem::forget(r); });
+probe!(q4_skip_symd, 10, |x, y| {
+    let e = [SOME, U8, x];
+    let d: u8 = kani::any();
+    kani::assume(d <= 32);
+    let (r, c) = run_skip(&e, d);
+    assert!(r.is_ok() == (d <= 30));
+});
+probe!(q5_ser_value_some, 10, |x, y| {
+    let e = [SOME, U8, x];
     let val = Value::Some(Box::new(Value::U8(x)));
-    check_value(&enc, 2, d, &val);
+    check_serialized_at(&e, 2, 0, &|s: Serializer| s.serialize(&val));
     std::mem::forget(val);
-}
-
-#[kani::proof]
-#[kani::unwind(8)]
-fn p3_ser_symd() {
-    let x: u8 = kani::any();
-    let d = any_depth();
-    let enc = [SOME, U8, x];
+});
+probe!(q6_check_value_some, 10, |x, y| {
+    let e = [SOME, U8, x];
     let val = Value::Some(Box::new(Value::U8(x)));
-    check_serialized(&enc, 2, d, |s| s.serialize(&val));
+    check_value_at(&e, 2, 0, &val);
     std::mem::forget(val);
-}
-
-#[kani::proof]
-#[kani::unwind(8)]
-fn p4_all_d0() {
-    let x: u8 = kani::any();
-    let d = 0;
-    let enc = [SOME, U8, x];
-    let val = Value::Some(Box::new(Value::U8(x)));
-    check_wellformed(&enc, 2, d);
-    check_value(&enc, 2, d, &val);
-    check_serialized(&enc, 2, d, |s| s.serialize(&val));
-    std::mem::forget(val);
-}
-
-#[kani::proof]
-#[kani::unwind(8)]
-fn p5_ser_typed_symd() {
-    let x: u8 = kani::any();
-    let d = any_depth();
-    let enc = [SOME, U8, x];
-    check_serialized(&enc, 2, d, |s| s.serialize_some::<tags::U8>(x));
-}
+});
+probe!(q7_skip_vec2_symd, 10, |x, y| {
+    let e = [VEC2, SOME, U8, x, NONE];
+    let d: u8 = kani::any();
+    kani::assume(d <= 32);
+    let (r, c) = run_skip(&e, d);
+    assert!(r.is_ok() == (d <= 30));
+});
